@@ -7,6 +7,8 @@ uriRemoveDotSegmentsEx, every path through the loop body).
   essential-dot   (round trip) in relative mode a "." is dropped only after the path has established that it is not the
                   current head (`walker != uri->pathHead`, or its back link is non-NULL), or that it is the last segment,
                   or that the scan of the next segment's text reached its end without meeting ':';
+  new-head-colon  (relative mode) a segment that becomes the head of the path through a removal has been scanned for ':'
+                  (else "a/../b:c" turns into "b:c");
   updir-kept      (relative mode) ".." is dropped only when a predecessor exists and the path has established that the
                   predecessor is not ".." itself;
   absolute-entry  uriRemoveDotSegmentsAbsolute passes constant false for `relative`.
@@ -198,6 +200,20 @@ class DotHooks(Hooks):
                 if v is not None and s is not None and 'SafeToPointTo' in expr_key(s):
                     facts = self._removal(facts, v, i.loc)
                     facts = facts | set(('placeholder', w) for w in self._aliases(facts, v))
+        # a segment that was not the head becomes the head: in relative mode its text must be known to contain no ':'
+        if d.k == 'member' and d.v == 'pathHead' and ('rel', False) not in facts and const_value(i.src, self.prog) is None:
+            owner = None
+            if s is not None and s.k == 'member' and s.v == 'next':
+                owner = _ref(s.c[0])
+            elif s is not None and s.k == 'ref':
+                ow = [x[1] for x in facts if x[0] == 'succ' and x[2] == s.v]
+                owner = ow[0] if ow else None
+            if owner is not None:
+                self.sites.setdefault('new-heads', set()).add(str(i.loc))
+                if ('nocolon', owner) not in facts:
+                    self.bad.append((i.loc, 'new-head-colon', owner, 'the segment behind `%s` becomes the first segment of the path on a path '
+                                     'where relative mode is not excluded and its text was not scanned for ":": "a/../b:c" becomes "b:c", '
+                                     'which is read back with scheme b' % owner))
         # the function itself makes the path of a relative reference empty
         if d.k == 'member' and d.v in ('pathHead', 'pathTail') and ('rel', True) in facts and ('hostset', True) not in facts:
             if d.v == 'pathHead' and const_value(i.src, self.prog) == 0:
@@ -335,7 +351,7 @@ def rule_dot_removal(ctx, chk, rules, prefix=''):
             if not found:
                 chk.ok(rules['nonempty-relative'], 'empty-path:none:%s' % name, f.loc, 'no path through the loop body empties the path in '
                        'relative mode without an established host', func=name)
-        for kind in ('dots-removed', 'essential-dot', 'updir-kept'):
+        for kind in ('dots-removed', 'essential-dot', 'updir-kept', 'new-head-colon'):
             if kind not in rules:
                 continue
             bad = [x for x in h.bad if x[1] == kind]
